@@ -2316,8 +2316,10 @@ impl Vm {
                                         for k in 0..f.upvalue_count {
                                             let is_local = code[base + 2 * k];
                                             let index = code[base + 2 * k + 1] as i64;
-                                            if is_local > 1
-                                                || (is_local == 1 && index >= height)
+                                            // index == height is the slot the new closure itself is
+                                                // about to occupy: a local function that calls itself
+                                                if is_local > 1
+                                                || (is_local == 1 && index > height)
                                                 || (is_local == 0 && index >= upvalues as i64)
                                             {
                                                 problems.push((
